@@ -42,7 +42,7 @@ type aval struct {
 	k      constant.Value
 	fields map[string]*aval // struct value (token literal, table entry)
 	tuple  []*aval
-	list   []*aval // a folded slice / array value
+	list   []*aval          // a folded slice / array value
 	mapv   map[string]*aval // a folded map value (keys as keyString)
 	isList bool
 	tag    string // "ident", "scan", "scantyp", "line", "column"
